@@ -16,7 +16,7 @@ META = {
              "points and one experiment repetition; distinct by input hash; non-trivial = the list contains a 0 or a 1 and another value"),
     "assumptions": ["both sides are library code; the oracle is their agreement as stated (heralded, stabilizer+projected, calibration, cycle length; 0-round exception)"],
     "floors": {
-        "quick": {"experiments": 380, "order_kernel_first": 80, "order_kernel_between_two_circuits": 80, "ancillas_compared": 600, "zero_round_blocks": 80, "one_round_blocks": 80},
+        "quick": {"experiments": 380, "order_kernel_first": 80, "all_qubits_queried_first": 120, "order_kernel_between_two_circuits": 80, "ancillas_compared": 600, "zero_round_blocks": 80, "one_round_blocks": 80},
         "thorough": {"experiments": 3900, "ancillas_compared": 6000, "zero_round_blocks": 800, "one_round_blocks": 800},
     },
 }
@@ -35,6 +35,7 @@ def gen_input(rng: random.Random) -> Dict[str, Any]:
         inp["rounds"][rng.randrange(length)] = rng.choice([v for v in (0, 1) if v not in inp["rounds"]] or [inp["rounds"][0]])
         inp["rounds"] = list(dict.fromkeys(inp["rounds"]))
     inp["order"] = rng.choice(["circuit_first", "kernel_first", "kernel_between_two_circuits"])
+    inp["query_all_first"] = rng.random() < 0.5
     return inp
 
 
@@ -85,6 +86,18 @@ def check_input(inp: Dict[str, Any], acc: Acc):
     def flat(x) -> List[int]:
         return sorted(int(v) for v in np.asarray(x).ravel())
 
+    # every getter is first asked for every qubit in chain order (data qubits before ancillas): what an ancilla is told afterwards
+    # must not depend on earlier queries for other qubits
+    if inp.get("query_all_first"):
+        acc.count("all_qubits_queried_first")
+        for qid in description.qubit_ids:
+            for n in rounds:
+                kernel.get_heralded_cycle_acquisition_indices(qubit_id=qid, cycle_stabilizer_count=n)
+                kernel.get_stabilizer_and_projected_cycle_acquisition_indices(qubit_id=qid, cycle_stabilizer_count=n)
+                kernel.get_projected_cycle_acquisition_indices(qubit_id=qid, cycle_stabilizer_count=n)
+            for st in states:
+                kernel.get_heralded_calibration_acquisition_indices(qubit_id=qid, state=st)
+                kernel.get_projected_calibration_acquisition_indices(qubit_id=qid, state=st)
     for qid in description.ancilla_qubit_ids:
         idx = description.map_qubit_id_to_circuit_index(qid)
         acc.count("ancillas_compared")
